@@ -408,6 +408,16 @@ fn registry() -> Vec<Op> {
         op!("boxed.from_be_slice(short input, precision 2048)", true, true, |i| { let b = i.a.to_be_bytes(); foldb(&BoxedUint::from_be_slice(&b, 2048).unwrap()) }),
         op!("uint.from_be_slice", true, true, |i| { let b = i.a.to_be_bytes(); fold(&U::from_be_slice(&b)) ^ fold(&U::from_le_slice(&b)) }),
         op!("uint.from_be_hex(secret digits)", true, true, |i| { let b = i.a.to_be_bytes(); let mut h = [0u8; 64]; for (k, x) in b.iter().enumerate() { let (hi, lo) = ((x >> 4) as i16, (x & 15) as i16); h[2 * k] = (48 + hi + (((9 - hi) >> 15) & 39)) as u8; h[2 * k + 1] = (48 + lo + (((9 - lo) >> 15) & 7)) as u8; }   /* branch-free, table-free: the encoder is part of the traced region */ fold(&U::from_be_hex(core::str::from_utf8(&h).unwrap())) }),
+        // --- trait default bodies and comparisons with wrapped operands
+        op!("uint.BitOps.trait_routes", true, true, |i| { let idx = (i.b.as_words()[0] % 256) as u32; (BitOps::bits(&i.a) ^ BitOps::leading_zeros(&i.a) << 8 ^ BitOps::trailing_zeros(&i.a) << 16 ^ BitOps::trailing_ones(&i.a) << 24) as u64 ^ foldc(BitOps::bit(&i.a, idx)) << 40 }),
+        op!("uint2048.BitOps.bits", true, true, |i| { let x: U2048 = i.wa.concat(&i.wb); (BitOps::bits(&x) ^ BitOps::leading_zeros(&x) << 12) as u64 }),
+        op!("boxed.BitOps.trait_routes", true, true, |i| (BitOps::bits(&i.bwa) ^ BitOps::leading_zeros(&i.bwa) << 12) as u64 ^ (BitOps::trailing_zeros(&i.bwb) as u64) << 32),
+        op!("boxed2048.CheckedMul", true, true, |i| foldc(CheckedMul::checked_mul(&i.bwa, &i.bwb).is_some()) ^ foldc(CheckedMul::checked_mul(&i.ba, &i.bb).is_some()) << 1),
+        op!("boxed.CheckedMul(small product)", true, true, |i| { let x = BoxedUint::from(i.a.as_words()[0]).widen(512); let y = BoxedUint::from(i.b.as_words()[0]).widen(512); foldc(CheckedMul::checked_mul(&x, &y).is_some()) ^ foldb(&(&x * &y)) }),
+        op!("uint.cmp_with_Odd(public modulus)", true, true, |i| { let o = oddm(i); ((i.a < o) as u64) ^ ((i.a == o) as u64) << 1 ^ ((i.a.partial_cmp(&o).unwrap() as i8 as u64) << 2) }),
+        op!("uint2048.cmp_with_Odd", true, true, |i| { let x: U2048 = i.wa.concat(&i.wb); let o = Odd::new(i.wb.concat(&i.wa).bitor(&U2048::ONE)).unwrap(); ((x < o) as u64) ^ ((x == o) as u64) << 1 }),
+        op!("boxed.cmp_with_Odd(public modulus)", true, true, |i| { let o = oddbm(i); ((i.ba < o) as u64) ^ ((i.ba == o) as u64) << 1 }),
+        op!("uint.cmp_with_NonZero_traits", true, true, |i| { let (x, y) = (NonZero::new(i.a.bitor(&U::ONE)).unwrap(), NonZero::new(i.b.bitor(&U::ONE)).unwrap()); ((x == y) as u64) ^ ((x < y) as u64) << 1 ^ foldc(x.ct_eq(&y)) << 2 }),
         // --- limb level
         op!("limb.arith", true, true, |i| { let (x, y) = (Limb(i.a.as_words()[0]), Limb(i.b.as_words()[0])); x.wrapping_add(y).0 ^ x.wrapping_sub(y).0 ^ x.wrapping_mul(y).0 ^ x.saturating_add(y).0 ^ x.saturating_mul(y).0 }),
         op!("limb.adc_sbb", true, true, |i| { let (x, y) = (Limb(i.a.as_words()[0]), Limb(i.b.as_words()[0])); let (s, c) = x.adc(y, Limb(i.a.as_words()[1])); let (d, bw) = x.sbb(y, Limb(i.b.as_words()[1])); s.0 ^ c.0 ^ d.0 ^ bw.0 }),
